@@ -492,6 +492,57 @@ theorem C08_staging_ops_spare_final (f t : Bytes) (chunks : List Bytes) (htf : t
     · exact writes_untouched _ f hp chunks o ho
     · simp at ho; subst ho; simp [Op.touches]
 
+/-! ### the "directory was deleted externally" retry branch -/
+
+theorem crashStates_mem_take (fs0 : FS) (ops : List Op) (k : Nat) :
+    run fs0 (ops.take k) ∈ crashStates fs0 ops := by
+  unfold crashStates
+  simp only [List.mem_map, List.mem_range]
+  by_cases hk : k ≤ ops.length
+  · exact ⟨k, by omega, rfl⟩
+  · refine ⟨ops.length, by omega, ?_⟩
+    rw [List.take_of_length_le (Nat.le_refl _), List.take_of_length_le (by omega)]
+
+/-- prefixing an op sequence with an `mkdirAll` adds no new crash state -/
+theorem crashStates_mkdir_cons (fs0 : FS) (d : Bytes) (ops : List Op) (st : FS)
+    (h : st ∈ crashStates fs0 (Op.mkdirAll d :: ops)) : st ∈ crashStates fs0 ops := by
+  obtain ⟨k, rfl⟩ := mem_crashStates _ _ _ h
+  cases k with
+  | zero => simpa [run] using crashStates_mem_take fs0 ops 0
+  | succ k =>
+    simp only [List.take_succ_cons, run, step]
+    exact crashStates_mem_take fs0 ops k
+
+theorem writeRetryOps_eq (f t : Bytes) (chunks : List Bytes) :
+    writeRetryOps f t chunks = Op.mkdirAll [] :: writeOps f t chunks := by
+  rw [writeOps_eq]
+  simp [writeRetryOps, proc, Arc.Generated.C08.writeSuccess, Arc.Generated.C08.writeOnError, inst,
+    Params.path]
+
+theorem writeReaderRetryOps_eq (f : Bytes) (chunks : List Bytes) :
+    writeReaderRetryOps f chunks = Op.mkdirAll [] :: writeReaderOps f chunks := by
+  rw [writeReaderOps_eq]
+  simp [writeReaderRetryOps, proc, Arc.Generated.C08.writeReaderSuccess,
+    Arc.Generated.C08.writeReaderOnError, inst, Params.path]
+
+/-- **C08_atomic_write_retry.** The retry branch of `Write` (partition directory cached but deleted
+behind the backend's back: failed `CreateTemp`, then — regenerated error-block steps — mkdir and a new
+`CreateTemp`, then write/close/rename) is atomic as well: it still creates the final name only by
+`rename`. -/
+theorem C08_atomic_write_retry (fs0 : FS) (f t : Bytes) (chunks : List Bytes) (htf : t ≠ f)
+    (hfresh : fs0 t = none) :
+    ∀ st ∈ crashStates fs0 (writeRetryOps f t chunks), st f = fs0 f ∨ st f = some chunks.flatten := by
+  intro st hst
+  rw [writeRetryOps_eq] at hst
+  exact C08_atomic_write fs0 f t chunks htf hfresh st (crashStates_mkdir_cons fs0 [] _ st hst)
+
+/-- **C08_atomic_write_reader_retry.** Same for the retry branch of `WriteReader`. -/
+theorem C08_atomic_write_reader_retry (fs0 : FS) (f : Bytes) (chunks : List Bytes) :
+    ∀ st ∈ crashStates fs0 (writeReaderRetryOps f chunks), st f = fs0 f ∨ st f = some chunks.flatten := by
+  intro st hst
+  rw [writeReaderRetryOps_eq] at hst
+  exact C08_atomic_write_reader fs0 f chunks st (crashStates_mkdir_cons fs0 [] _ st hst)
+
 /-! ### error paths -/
 
 open Arc.Generated.C08 in
